@@ -125,6 +125,7 @@ type zzMemReader struct {
 	pos       int
 	fail      bool
 	chunked   bool
+	arb       int
 	name      string
 	nread     int
 	requested int
@@ -151,7 +152,7 @@ func (r *zzMemReader) Read(p []byte) (int, error) {
 	}
 	n := zzMin(len(p), avail)
 	var err error
-	if r.chunked && r.nread < 3 {
+	if r.chunked && r.nread < r.arb {
 		k := int(zzModel[fmt.Sprintf("%s_c%d", r.name, r.nread)])
 		if k < 1 {
 			k = 1
@@ -249,8 +250,15 @@ func zzReaderTrunc(b []byte, name string) *zzMemReader {
 
 // zzChunkedReaderOf: the stream is exactly b, delivered in arbitrary legal short reads.
 func zzChunkedReaderOf(b []byte, name string) *zzMemReader {
-	r := &zzMemReader{data: append([]byte(nil), b...), chunked: true, name: name}
+	r := &zzMemReader{data: append([]byte(nil), b...), chunked: true, arb: 3, name: name}
 	zzStreams = append(zzStreams, r)
+	return r
+}
+
+// zzChunkedReaderOf2: as zzChunkedReaderOf with the first two reads arbitrary (for longer streams)
+func zzChunkedReaderOf2(b []byte, name string) *zzMemReader {
+	r := zzChunkedReaderOf(b, name)
+	r.arb = 2
 	return r
 }
 
@@ -288,7 +296,11 @@ func zzExpectSilent() {}
 func zzF32s(name string, n int) []float32 {
 	f := make([]float32, n)
 	for i := range f {
-		f[i] = math.Float32frombits(uint32(zzModel[fmt.Sprintf("%s_%d", name, i)]))
+		if v, ok := zzModel[fmt.Sprintf("%s_%d", name, i)]; ok {
+			f[i] = math.Float32frombits(uint32(v))
+		} else {
+			f[i] = float32((i*2654435761)%1009) / 8 // not part of the model (large vectors): a fixed pattern
+		}
 		if f[i] != f[i] {
 			f[i] = 1
 		}
@@ -307,7 +319,11 @@ func zzIgnoreZeroSign() {}
 func zzF64s(name string, n int) []float64 {
 	f := make([]float64, n)
 	for i := range f {
-		f[i] = math.Float64frombits(zzModel[fmt.Sprintf("%s_%d", name, i)])
+		if v, ok := zzModel[fmt.Sprintf("%s_%d", name, i)]; ok {
+			f[i] = math.Float64frombits(v)
+		} else {
+			f[i] = float64((i*2654435761)%1009) / 8 // not part of the model (large vectors): a fixed pattern
+		}
 		if f[i] != f[i] {
 			f[i] = 1
 		}
@@ -371,3 +387,15 @@ func zzGuardCopy(g []float32) []float32 {
 	copy(a, g)
 	return a
 }
+
+// zzB2I: 1 if b, else 0 (the engine builds an if-then-else term instead of forking the path)
+func zzB2I(b bool) int {
+	if b {
+		return 1
+	}
+	return 0
+}
+
+// zzSameTerm: the engine answers whether the two values were computed by the same operations on the same inputs
+// (hash-consed term identity); native: identical bit patterns.
+func zzSameTerm(a, b float64) bool { return math.Float64bits(a) == math.Float64bits(b) }
